@@ -119,7 +119,7 @@ class C16(PropBase):
     THOROUGH_RUNS = 300000
     QUICK_BUDGET_S = 45
     THOROUGH_BUDGET_S = 420
-    FAULT_KINDS = ("clear", "clear_typing", "fr_eval", "stack")
+    FAULT_KINDS = ("clear", "clear_typing", "fr_eval", "stack", "exhaust_scan")
     RULE = (
         "A case is one TypeContext operation (insert fresh key / [] / get with default / in for stored keys) of a seeded "
         "sequence over the closed key family (5 base types x {itself, NewType, NewType of NewType, value alias, string-valued "
@@ -202,6 +202,9 @@ class C16(PropBase):
                 step.update(op="ctx_getitem")
             elif kind == "get":
                 step.update(op="ctx_get", default=f"dflt{len(steps)}")
+                if "exhaust_scan" in sw and rng.random() < 0.4:
+                    step["scan"] = True
+                    step.pop("depth", None)
             else:
                 if not stored[c]:
                     continue
@@ -291,6 +294,15 @@ class C16(PropBase):
             return sess.guarded(sess.call, step, lambda: c[kobj])
         if op == "ctx_get":
             sess._c16_fresh = sess.guarded(sess.call, step, lambda: fresh.get(kobj, step["default"]))
+            sess._c16_low = None
+            if step.get("scan"):
+                # the lookup is first attempted (in a context of its own with the same entries) from every stack
+                # depth at which it cannot complete: an attempt either dies of RecursionError or answers as at any depth
+                low = _ctx_mod.TypeContext()
+                for fk, fv in sess.store_log.get(step["ctx"], ()):
+                    low[fk] = fv
+                r = sess.scan_exhaust({"mod": step.get("mod", "vw0")}, low.get, kobj, step["default"])
+                sess._c16_low = r[1] if r and r[0] else None
             return sess.guarded(sess.call, step, lambda: c.get(kobj, step["default"]))
         if op == "ctx_in":
             sess._c16_fresh = sess.guarded(sess.call, step, lambda: kobj in fresh)
@@ -313,6 +325,10 @@ class C16(PropBase):
             return
         if not op.startswith("ctx_"):
             return
+        low = getattr(sess, "_c16_low", None)
+        if op == "ctx_get" and low is not None and low.ok and out.ok and low.value != out.value:
+            sess.violation("model-mismatch", i, {"key": step["key"], "with_next_to_no_stack_left": repr(low.value)[:80], "at_normal_depth": repr(out.value)[:80]},
+                           sig="get-answer-depends-on-stack-depth")
         m = sess.models[step["ctx"]]
         k = mkey(**step["key"])
         stored = sorted(map(str, m.store))
